@@ -58,7 +58,8 @@ func NewUniverse() *Universe {
 		"(forall ((a Str) (b Str)) (! (= (gs.len (gs.cat a b)) (+ (gs.len a) (gs.len b))) :pattern ((gs.cat a b))))",
 	)
 	u.axioms = append(u.axioms, "(= (proot 0) 0)")
-	u.axiomName = append(u.axiomName, "str.len>=0", "str.cat.len", "proot(nil)=nil")
+	u.axioms = append(u.axioms, "(forall ((s Str)) (! (=> (= (gs.len s) 0) (= s 0)) :pattern ((gs.len s))))")
+	u.axiomName = append(u.axiomName, "str.len>=0", "str.cat.len", "proot(nil)=nil", "the empty string is the only string of length 0")
 	return u
 }
 
